@@ -34,6 +34,8 @@ type Instance struct {
 	ProtoPath string
 	File      *descriptorpb.FileDescriptorProto
 	Deps      []*descriptorpb.FileDescriptorProto
+	// GoName is the name in the package clause of the generated Go package (GoPkg is its directory / import path element)
+	GoName string
 	// DepPath is the instantiated path of the unit's own dependency file ("" = none); it is part of Deps
 	DepPath        string
 	Fast           bool
@@ -62,6 +64,9 @@ func Supported(u *Unit, flavour string) bool {
 func Instantiate(u *Unit, flavour, optKey string) (*Instance, error) {
 	in := &Instance{Unit: u, Flavour: flavour, OptKey: optKey}
 	in.GoPkg = strings.ToLower(u.Name) + "_" + flavour + "_" + optKey
+	// the Go package NAME does not mention the runtime: the same schema generated for two runtimes gives equally named
+	// packages and types ("*p2req_d.Leaf" three times in one binary), as it does in a code base that migrates runtimes
+	in.GoName = strings.ToLower(u.Name) + "_" + optKey
 	in.ProtoPath = "gen/" + in.GoPkg + "/" + u.Name + ".proto"
 	in.Fast = !strings.HasPrefix(optKey, "plain")
 	in.FilePerMessage = strings.Contains(optKey, "pm")
@@ -75,7 +80,7 @@ func Instantiate(u *Unit, flavour, optKey string) (*Instance, error) {
 	if f.Options == nil {
 		f.Options = &descriptorpb.FileOptions{}
 	}
-	f.Options.GoPackage = proto.String("verifgen/gen/" + in.GoPkg + ";" + in.GoPkg)
+	f.Options.GoPackage = proto.String("verifgen/gen/" + in.GoPkg + ";" + in.GoName)
 	if optKey == "plainsz" {
 		// gogoproto.sizer_all (extension 63020 of FileOptions) = true: protoc-gen-gogo's sizer plug-in adds a Size()
 		// method to every message, no Marshal/Unmarshal methods - a flavour csproto.Size/Marshal dispatch differently
@@ -97,6 +102,17 @@ func Instantiate(u *Unit, flavour, optKey string) (*Instance, error) {
 		dep.Package = proto.String(newDepPkg)
 		dep.Name = proto.String(in.DepPath)
 		dep.Options = &descriptorpb.FileOptions{GoPackage: proto.String("verifgen/gen/" + in.GoPkg + "/dep/v2;deppb")}
+		if u.DepSamePackage {
+			newPath := "gen/" + in.GoPkg + "/" + u.Name + "_dep.proto"
+			for i, d := range f.Dependency {
+				if d == in.DepPath {
+					f.Dependency[i] = newPath
+				}
+			}
+			in.DepPath = newPath
+			dep.Name = proto.String(in.DepPath)
+			dep.Options = &descriptorpb.FileOptions{GoPackage: proto.String("verifgen/gen/" + in.GoPkg + ";" + in.GoName)}
+		}
 	}
 	var fixField func(fd *descriptorpb.FieldDescriptorProto)
 	fixField = func(fd *descriptorpb.FieldDescriptorProto) {
